@@ -32,7 +32,32 @@ def hostile(args):
         rid = 0
         recsize = C.Packet.RECV_SIZE
         lengths = list(range(0, 64)) + [recsize - 1, recsize, recsize + 1, 1472, 1473, 2048, 4096]
+        keyed = dict(conn=None, addr=("6.6.200.%d" % (seed % 200 + 1), 4444), stage=0)     # an attacker that does the key exchange honestly and then misbehaves
         for t in range(nticks):
+            # -- the half-open keyed attacker: a real hello (so it holds the session key), never the challenge response; instead one datagram typed CHALLENGE_RESP
+            #    that bundles a DISCONNECT with a keep-alive, then a tiny refresh now and then so that the half-open entry is not forgotten
+            try:
+                if t == 20:
+                    keyed["conn"] = C.ClientServerConnection(keyed["addr"])
+                    keyed["conn"].clock = w.vt.time
+                    keyed["conn"]._sendClientHello()
+                    w.inject(keyed["conn"]._encode_packet(keyed["conn"]._build_packet()), keyed["addr"], kind="keyed-attacker")
+                elif keyed["conn"] is not None and keyed["stage"] == 0 and t > 22:
+                    hellos = [d for d in w.sent_to.get(keyed["addr"], []) if len(d) > 12 and d[12] == 2]
+                    if hellos:
+                        keyed["conn"]._recv_datagram(C.PacketHeader.from_bytes(False, hellos[0]), hellos[0])
+                        keyed["stage"] = 1
+                elif keyed["stage"] == 1 and keyed["conn"].session_key_bytes:
+                    hdr = C.PacketHeader.create(False, int(w.vt.time()), C.PacketType.CHALLENGE_RESP, C.SeqNum(40), C.SeqNum(1), 0)
+                    pkt = C.Packet.create(hdr, [C.PendingMessage(C.SeqNum(41), C.PacketType.DISCONNECT, b"", None, C.RetryMode.NONE),
+                                                C.PendingMessage(C.SeqNum(42), C.PacketType.KEEP_ALIVE, b"", None, C.RetryMode.NONE)])
+                    w.inject(pkt.to_bytes(keyed["conn"].session_key_bytes), keyed["addr"], kind="keyed-attacker")
+                    keyed["stage"] = 2
+                elif keyed["stage"] == 2 and t % 80 == 0:
+                    hdr = C.PacketHeader.create(False, int(w.vt.time()), C.PacketType.CHALLENGE_RESP, C.SeqNum(50 + t // 80), C.SeqNum(1), 0)
+                    w.inject(C.Packet.create(hdr, []).to_bytes(keyed["conn"].session_key_bytes), keyed["addr"], kind="keyed-attacker")
+            except Exception:
+                keyed["stage"] = 9
             if late and t == nticks // 2:
                 w.ctxt.setBlockList(set(blocklist))
             # canary requests once the clients are connected
